@@ -260,6 +260,20 @@ func main() {
 			mc.Opts{MaxDev: -1, NewLocal: newLocal, Deadline: cap30}, 16, driver(true, 2, 1, -1, func(n int) bool { return n <= 2 }))
 		collect(st)
 	}
+	// Part 5: a tree more than 32 levels deep (explicit stacks, depth-indexed scratch space, iteration instead of
+	// recursion only come into play there); callback seam, 2 threads, one query each around the hot spot
+	{
+		shallow := trees
+		deep = true
+		trees = deepTrees()
+		dm := menu()
+		b5 := ev.Pick(r, 1, 2)
+		st = r.ExploreSharded("callback-deep-tree", fmt.Sprintf("%d trees of 40 pointers (36 coincident, 3 within 2^-40 of them, 1 far; > 36 levels) x %d unordered pairs of %d queries around the hot spot, all schedules with <= %d preemptions at callback granularity", len(trees), len(dm)*(len(dm)+1)/2, len(dm), b5),
+			mc.Opts{MaxDev: -1, NewLocal: newLocal, Deadline: cap30}, 16, driver(false, 2, 1, b5, nil))
+		collect(st)
+		deep = false
+		trees = shallow
+	}
 	// Supplementary: free-running race detector pass.
 	r.Custom("race-pass", "free-running -race pass with 2, 8, 32 goroutines (supplementary, sampling)", func(p *ev.Part) {
 		if r.Replaying() {
